@@ -388,7 +388,7 @@ def generic_main(prop, module, level, cases, bound, case_bounds, rule, assumptio
 
     rep = runner.Report(prop, args.tier, level, runner.seed())
     with Explorer(module.__name__, cases, workers=args.workers, seed=runner.seed()) as exp:
-        stats, completed, levels = exp.run(bound, time_cap=args.time_cap or time_cap, case_bounds=case_bounds)
+        stats, completed, levels = exp.run(max([bound] + list(case_bounds.values())), time_cap=args.time_cap or time_cap, case_bounds=case_bounds)
     runner.e1_report(rep, module, cases, stats, completed, levels, bound,
                      samples=samples or [cases[0], cases[len(cases) // 2], cases[-1]], extra=extra)
     rep.coverage["rule"] = rule
